@@ -6,7 +6,7 @@ never touched) and runs the checks against it with evidence and witnesses switch
   seeded change  -> the check of its property, quick tier, then thorough if quick is silent (exit 1 = DETECTED)
   refactoring    -> all 20 checks, quick tier (any exit != 0 = false alarm)
 Usage: tools/corpus_eval.py [--jobs N] [--only-seeds] [--only-refactors] [--ids a,b,c]
-(--ids after a complete run re-evaluates only those items and rewrites both tables from the stored rows)"""
+(--ids after a complete run re-evaluates only those items and rewrites both tables from the stored rows;\n--changed-props=C07,C17: refactorings are run only against the listed checks, and of those only the ones that read a\nfile the patch touches - for the incremental re-evaluation after a change of a few rule modules)"""
 import json
 import os
 import subprocess
@@ -28,6 +28,24 @@ def run_check(prop, tier, tree):
     c = sh("/venv/bin/python", "-m", "sa.main", prop, "--tier", tier, "--repo", tree, cwd=HERE, env=ENV)
     rules = sorted({ln.split("rule=")[1].split()[0] for ln in c.stdout.splitlines() if " rule=" in ln})
     return c.returncode, rules
+
+
+# files a check reads beyond the anchors of its property (used only by --changed-props: which of the re-evaluated
+# checks can be influenced by a patch at all)
+COMMON = {"adcgen/misc.py", "adcgen/indices.py", "adcgen/sympy_objects.py", "adcgen/expr_container.py", "adcgen/tensor_names.py"}
+READS = {
+    "C06": {"adcgen/symmetry.py"},
+    "C07": {"adcgen/simplify.py", "adcgen/symmetry.py"},
+    "C11": {"adcgen/intermediates.py", "adcgen/factor_intermediates.py", "adcgen/reduce_expr.py", "adcgen/eri_orbenergy.py",
+            "adcgen/symmetry.py", "adcgen/simplify.py", "adcgen/func.py"},
+    "C14": {"adcgen/simplify.py", "adcgen/derivative.py", "adcgen/symmetry.py"},
+    "C15": {"adcgen/spatial_orbitals.py", "adcgen/intermediates.py"},
+    "C17": {"adcgen/generate_code/generate_code.py", "adcgen/generate_code/optimize_contractions.py",
+            "adcgen/generate_code/contraction.py", "adcgen/generate_code/config.py", "adcgen/sort_expr.py", "adcgen/symmetry.py"},
+    "C19": None,    # history / hash-seed / configuration rules read nearly every module: always re-evaluated
+    "C20": {"adcgen/simplify.py", "adcgen/func.py"},
+}
+CHANGED = None
 
 
 def task(job):
@@ -53,7 +71,11 @@ def task(job):
                 ("ANALYSIS-ERROR" if any(rc == 2 for rc, _ in out.values()) else "MISSED")
             return kind, ident, det, out
         alarms = {}
-        for prop in PROPS:
+        props = PROPS
+        if CHANGED is not None:
+            files = {ln[6:].strip() for ln in open(patch) if ln.startswith("+++ b/")}
+            props = [p for p in CHANGED if READS.get(p) is None or files & (READS[p] | COMMON)]
+        for prop in props:
             rc, rules = run_check(prop, "quick", tree)
             if rc != 0:
                 alarms[prop] = (rc, rules)
@@ -63,9 +85,12 @@ def task(job):
 
 
 def main():
+    global CHANGED
     jobs = 14
     ids = None
     for a in sys.argv[1:]:
+        if a.startswith("--changed-props="):
+            CHANGED = a.split("=", 1)[1].upper().split(",")
         if a.startswith("--jobs"):
             jobs = int(a.split("=")[1])
         if a.startswith("--ids="):
